@@ -272,7 +272,7 @@ func c13encClass(enc string) string {
 }
 
 // one summary through a fresh engine; emits the e2e case and evaluates the property on the real responses
-func c13e2e(rows []c13row, class string, inQuantifier bool) {
+func c13e2e(pre [][]c13row, rows []c13row, class string, inQuantifier bool) {
 	c13stats["e2e_"+class]++
 	mux := c13newMux()
 	defer protect(func() { mux.Shutdown() })
@@ -309,6 +309,31 @@ func c13e2e(rows []c13row, class string, inQuantifier bool) {
 		asis = append(asis, j)
 	}
 	cj["asis"] = asis
+
+	// history: earlier summaries posted to the same engine, every label of theirs fetched
+	preJ := []J{}
+	for _, prows := range pre {
+		ptext := c13marshal(prows)
+		precords, perr := c20reader(ptext)
+		if perr != nil {
+			panic("history summary is not csv-safe")
+		}
+		pr := make([][]J, len(precords))
+		for i, r := range precords {
+			pr[i] = make([]J, len(r))
+			for k, f := range r {
+				pr[i][k] = c20field(f)
+			}
+		}
+		c13send(mux, "POST", "solutions", ptext, "text/csv")
+		labels := []string{}
+		for _, r := range prows {
+			c13send(mux, "GET", "solutions/"+r.label, "", "")
+			labels = append(labels, c20hex(r.label))
+		}
+		preJ = append(preJ, J{"csv": pr, "labels": labels})
+	}
+	cj["pre"] = preJ
 
 	post := c13send(mux, "POST", "solutions", text, "text/csv")
 	switch {
@@ -575,7 +600,7 @@ func runC13(args []string) {
 		return c13row{label: fmt.Sprintf("%d-of-%d", k, n), enc: enc, note: fmt.Sprintf("Pareto front member %d of %d", k, n), vars: vs, realBits: int64(bits)}
 	}
 	// (a) summaries as the explorer writes them: real values, real encodings
-	nReal, realSize := 6, 12
+	nReal, realSize := 5, 10
 	if tier == "thorough" {
 		nReal, realSize = 40, 40
 	}
@@ -599,20 +624,20 @@ func runC13(args []string) {
 			rows[k+1].label = fmt.Sprintf("%d-of-%d", k+1, len(rows)-1)
 			rows[k+1].note = fmt.Sprintf("Pareto front member %d of %d", k+1, len(rows)-1)
 		}
-		c13e2e(rows, "real_rows", true)
+		c13e2e(nil, rows, "real_rows", true)
 	}
 	// single-objective shape: As-Is + Optimised
 	{
 		vs, enc := c13vars(ref, 0x1A5&((1<<uint(nActions))-1))
-		c13e2e([]c13row{asRow, {label: "Optimised", enc: enc, note: "Computationally optimised solution", vars: vs, realBits: int64(0x1A5 & ((1 << uint(nActions)) - 1))}}, "real_optimised", true)
+		c13e2e(nil, []c13row{asRow, {label: "Optimised", enc: enc, note: "Computationally optimised solution", vars: vs, realBits: int64(0x1A5 & ((1 << uint(nActions)) - 1))}}, "real_optimised", true)
 	}
 	// (b) every encoding class on its own, with the real values of that action set
 	for _, bits := range []uint64{0xF, 0x1E3, 0x1E0, 0x9E9, 0x1E03, 0x1E10, 0x40, 0x148, 0xC0, 0x1000, 0x1234, 0xE, 0x1E, 0xE1, 0xABC, 0x1FFF, 0x1, 0x0} {
 		b := bits & ((1 << uint(nActions)) - 1)
-		c13e2e([]c13row{asRow, realRow(1, 1, b)}, "one_real_row_"+c13encClass(realRow(1, 1, b).enc), true)
+		c13e2e(nil, []c13row{asRow, realRow(1, 1, b)}, "one_real_row_"+c13encClass(realRow(1, 1, b).enc), true)
 	}
 	// (c) synthetic rows: arbitrary text over [0-9A-F:] in the Actions column (as for scenarios with more actions)
-	nSynth := 25
+	nSynth := 18
 	if tier == "thorough" {
 		nSynth = 300
 	}
@@ -644,59 +669,50 @@ func runC13(args []string) {
 			}
 			rows = append(rows, c13row{label: fmt.Sprintf("%d-of-%d", k, n), enc: synthEnc(), note: fmt.Sprintf("Pareto front member %d of %d", k, n), vars: vs, realBits: -1})
 		}
-		c13e2e(rows, "synthetic_rows", true)
+		c13e2e(nil, rows, "synthetic_rows", true)
 	}
 	// (d) malformed relatives (outside the property's quantifier; they validate the model's 400 / Panic outcomes)
 	{
 		wrong := asRow
 		wrong.vars = append(solution.VariableSetSummary{}, asVars...)
 		wrong.vars[0].Value += 1
-		c13e2e([]c13row{wrong, realRow(1, 1, 3)}, "asis_values_of_another_scenario", false)
-		c13e2e([]c13row{realRow(1, 1, 3)}, "first_row_not_asis", false)
-		c13e2e([]c13row{asRow, {label: "1-of-1", enc: "XYZ", note: "n", vars: asVars, realBits: -1}}, "encoding_not_hex", false)
-		c13e2e([]c13row{asRow, {label: "1-of-1", enc: "3", note: "true", vars: asVars, realBits: -1}}, "note_is_bool_literal", false)
-		c13e2e([]c13row{asRow, {label: "1-of-2", enc: "3", note: "a", vars: asVars, realBits: -1}, {label: "1-of-2", enc: "5", note: "b", vars: asVars, realBits: -1}}, "duplicate_labels", false)
-		c13e2e([]c13row{asRow}, "asis_only", false)
+		c13e2e(nil, []c13row{wrong, realRow(1, 1, 3)}, "asis_values_of_another_scenario", false)
+		c13e2e(nil, []c13row{realRow(1, 1, 3)}, "first_row_not_asis", false)
+		c13e2e(nil, []c13row{asRow, {label: "1-of-1", enc: "XYZ", note: "n", vars: asVars, realBits: -1}}, "encoding_not_hex", false)
+		c13e2e(nil, []c13row{asRow, {label: "1-of-1", enc: "3", note: "true", vars: asVars, realBits: -1}}, "note_is_bool_literal", false)
+		c13e2e(nil, []c13row{asRow, {label: "1-of-2", enc: "3", note: "a", vars: asVars, realBits: -1}, {label: "1-of-2", enc: "5", note: "b", vars: asVars, realBits: -1}}, "duplicate_labels", false)
+		c13e2e(nil, []c13row{asRow}, "asis_only", false)
+		// the guards added by ac75323 / 09c7c9e: a variable column missing, a column that is no decision variable
+		fewer := func(r c13row) c13row { r.vars = append(solution.VariableSetSummary{}, r.vars[:len(r.vars)-1]...); return r }
+		c13e2e(nil, []c13row{fewer(asRow), fewer(realRow(1, 1, 3))}, "one_variable_column_missing", false)
+		renamed := func(r c13row) c13row {
+			r.vars = append(solution.VariableSetSummary{}, r.vars...)
+			r.vars[0].Name = "NoSuchVariable"
+			return r
+		}
+		c13e2e(nil, []c13row{renamed(asRow), renamed(realRow(1, 1, 3))}, "unknown_variable_column", false)
 	}
 
-	// ---- 3. refutation witnesses of Properties/C13.v replayed; stale pool across two summaries ----
-	{
-		mux := c13newMux()
-		rows := []c13row{asRow, realRow(1, 1, 0x1E3)}
-		p := c13send(mux, "POST", "solutions", c13marshal(rows), "text/csv")
-		g := c13send(mux, "GET", "solutions/1-of-1", "", "")
-		var jm map[string]interface{}
-		json.Unmarshal([]byte(g.body), &jm)
-		e, _ := c13attr(jm, "Encoding")
-		emit(J{"kind": "witness", "name": "C13_lookup_exact_refuted", "input": "row encoding 1E3",
-			"confirmed": p.status == 200 && g.status == 200 && fmt.Sprint(e) == "1000", "observed_encoding": fmt.Sprint(e)})
-		protect(func() { mux.Shutdown() })
-
-		mux = c13newMux()
+	// ---- 3. regression cases: the former refutation witnesses of D9 (b0400cb) and of the stale pool (43fcffa)
+	//         must now round-trip; they are ordinary in-quantifier cases of the correspondence and of the oracle ----
+	for _, bits := range []uint64{0x1E3, 0xF, 0x1E0, 0x12, 0x1E03} {
+		c13e2e(nil, []c13row{asRow, realRow(1, 1, bits&((1<<uint(nActions))-1))}, "former_D9_witness_real_row", true)
+	}
+	for _, enc := range []string{"1000000", "9E9", "0012", "1E3", "F"} {
 		vs, _ := c13vars(ref, 0)
-		rows = []c13row{asRow, {label: "1-of-1", enc: "1000000", note: "Pareto front member 1 of 1", vars: vs, realBits: -1}}
-		p = c13send(mux, "POST", "solutions", c13marshal(rows), "text/csv")
-		emit(J{"kind": "witness", "name": "C13_accepts_refuted", "input": "row encoding 1000000", "confirmed": p.status == 400, "status": p.status})
-		protect(func() { mux.Shutdown() })
-
-		// two summaries in a row on one engine: the pool keeps the first summary's solution for a re-used label
-		mux = c13newMux()
-		a := []c13row{asRow, realRow(1, 1, 0x3)}
-		b := []c13row{asRow, realRow(1, 1, 0xC)}
-		c13send(mux, "POST", "solutions", c13marshal(a), "text/csv")
-		c13send(mux, "GET", "solutions/1-of-1", "", "")
-		c13send(mux, "POST", "solutions", c13marshal(b), "text/csv")
-		g = c13send(mux, "GET", "solutions/1-of-1", "", "")
-		json.Unmarshal([]byte(g.body), &jm)
-		e, _ = c13attr(jm, "Encoding")
-		stale := fmt.Sprint(e) == "3"
-		emit(J{"kind": "witness", "name": "C13_lookup_after_repost_refuted", "input": "summary A (1-of-1 = 3), GET 1-of-1, summary B (1-of-1 = C), GET 1-of-1",
-			"confirmed": stale, "observed_encoding": fmt.Sprint(e)})
-		if fmt.Sprint(e) != "C" {
-			c13oracle("after a second summary is posted, a label already fetched still returns the first summary's solution",
-				J{"label": "1-of-1", "encoding": "C", "observed_encoding": fmt.Sprint(e), "class": "repost"})
+		c13e2e(nil, []c13row{asRow, {label: "1-of-1", enc: enc, note: "Pareto front member 1 of 1", vars: vs, realBits: -1}}, "former_D9_witness_synthetic", true)
+	}
+	// two (three) summaries in a row on one engine, the same labels re-used with other encodings
+	c13e2e([][]c13row{{asRow, realRow(1, 1, 0x3)}}, []c13row{asRow, realRow(1, 1, 0xC)}, "repost_same_label", true)
+	c13e2e([][]c13row{{asRow, realRow(1, 2, 0x3), realRow(2, 2, 0x1E3)}, {asRow, realRow(1, 2, 0xF), realRow(2, 2, 0x5)}},
+		[]c13row{asRow, realRow(1, 2, 0x1E0), realRow(2, 2, 0xC)}, "repost_same_label", true)
+	for i := 0; i < 4; i++ {
+		a := []c13row{asRow, realRow(1, 2, rng.next()&((1<<uint(nActions))-1)), realRow(2, 2, 1+rng.next()&0xFF)}
+		b := []c13row{asRow, realRow(1, 2, 0x100+rng.next()&0xFF), realRow(2, 2, 0x1000+rng.next()&0xFF)}
+		if a[1].enc == a[2].enc || b[1].enc == b[2].enc {
+			continue
 		}
-		protect(func() { mux.Shutdown() })
+		c13e2e([][]c13row{a}, b, "repost_same_label", true)
 	}
 	protect(func() { probe.Shutdown() })
 	emit(J{"kind": "stat", "stats": c13stats})
